@@ -71,6 +71,37 @@ pub fn run(a: &Args) {
     for (n, b) in corpus_files(if thorough { 16384 } else { 1500 }, if thorough { 400 } else { 40 }, &mut rng) {
         files.push((n, b));
     }
+    // chunk bodies larger than the 32 KiB chunk buffer under a small limit: where the limit is checked must not depend on the delivery
+    let mut limited: Vec<(String, Vec<u8>, usize)> = vec![];
+    for &n in &[32769usize, 50000, 100000] {
+        use crate::pngbuild::*;
+        let mut chunks = vec![ihdr(2, 2, 8, 0, 0), Chunk::new(if n % 2 == 1 { b"eXIf" } else { b"prVt" }, (0..n).map(|i| (i * 7) as u8).collect())];
+        chunks.push(Chunk::new(b"IDAT", zlib_stored(&[0, 1, 2, 0, 3, 4], 3)));
+        chunks.push(Chunk::new(b"tEXt", { let mut d = b"key\0".to_vec(); d.extend((0..n / 2).map(|i| 32 + (i % 90) as u8)); d }));
+        chunks.push(Chunk::new(b"IEND", vec![]));
+        for &lim in &[40000usize, 70000, 200000] {
+            limited.push((format!("bigchunk{}-limit{}", n, lim), assemble(&chunks), lim));
+        }
+    }
+    for (name, bytes, lim) in &limited {
+        let whole = strip_leftover(&strip_pc(&run_l0(&[bytes.clone()], Opts::default(), Some(*lim)).text));
+        o.count("l0.limited-bigchunk");
+        for sc in [vec![1usize], vec![7], vec![1000], vec![32768], vec![32769, 1], vec![rng.range(1, 5000) as usize]] {
+            let r = run_l0(&split_sched(bytes, &sc), Opts::default(), Some(*lim));
+            o.direct_checks += 1;
+            let got = strip_leftover(&strip_pc(&r.text));
+            if got != whole {
+                o.violation(viol("l0-observation-depends-on-delivery", vec![("file", jstr(name)), ("limit", lim.to_string()), ("schedule", jstr(&format!("{:?}", sc))),
+                    ("whole", jstr(&whole.chars().take(600).collect::<String>())), ("pieces", jstr(&got.chars().take(600).collect::<String>()))]));
+                break;
+            }
+        }
+    }
+    // more than 128 KiB of image data with maximal-distance back-references (the inflater's window must survive every compaction schedule)
+    {
+        let im = crate::c01::far_match_image(&mut rng, 200, 32768, 0);
+        files.push((im.name.clone(), im.file.clone()));
+    }
     let optsets = [Opts::default(), Opts { ignore_crc: true, ..Opts::default() }, Opts { skip_anc_crc: false, ignore_adler: false, ..Opts::default() }];
     for (fi, (name, bytes)) in files.iter().enumerate() {
         let opts = optsets[fi % optsets.len()];
@@ -79,7 +110,8 @@ pub fn run(a: &Args) {
         let kind = if name.contains('~') { "mutated" } else { "valid-or-corpus" };
         o.count(&format!("l0.{}", kind));
         o.count(&format!("l0.end.{}", base.split(" END=").nth(1).unwrap_or("").split(' ').next().unwrap_or("").split(':').take(2).collect::<Vec<_>>().join(":")));
-        let scheds = schedules(bytes.len(), &mut rng, if thorough { 40 } else { 10 }, bytes.len() <= if thorough { 4096 } else { 700 });
+        let scheds = if bytes.len() > 100_000 { vec![vec![1usize], vec![3], vec![4096], vec![rng.range(100, 9000) as usize], vec![65536, 1, 1]] }
+                     else { schedules(bytes.len(), &mut rng, if thorough { 40 } else { 10 }, bytes.len() <= if thorough { 4096 } else { 700 }) };
         for sc in &scheds {
             let pieces = split_sched(bytes, sc);
             let r = run_l0(&pieces, opts, None);
